@@ -496,6 +496,13 @@ where
   if distinct < 2 {
     ctx.machinery.lock().unwrap().push(format!("vacuous run: {distinct} distinct non-trivial cases"));
   }
+  let diverged = crate::choice::DIVERGENCES.load(Ordering::SeqCst);
+  if diverged > 0 {
+    ctx.machinery.lock().unwrap().push(format!(
+      "{diverged} replay divergence(s): the explored body is not deterministic under the owned choices (first: {}); nothing observed in a diverged execution is reported unless it reproduces identically on its own",
+      crate::choice::FIRST_DIVERGENCE.lock().unwrap().clone().unwrap_or_default()
+    ));
+  }
   let caps = ctx.caps.lock().unwrap().clone();
   let machinery = ctx.machinery.lock().unwrap().clone();
   let coverage = json!({
